@@ -23,6 +23,7 @@ from ..astx import attr_writes, call_name, calls, inline_locals, walk_local
 from ..cfg import CFG
 from ..loader import NOFOLD, AnalysisError, Repo
 from ..report import Check, canon
+from ..mayraise import UNTYPED
 from .e1_common import check_entry, engine, finish
 
 PM = "xknx.dpt.payload"
@@ -178,6 +179,106 @@ def ordering(chk: Check, repo: Repo) -> None:
     chk.ob("payload-built-before-queueing", sr.site(), len(pn) == 1, "RemoteValue.send_raw queues exactly one telegram carrying the payload it was given", key="order|send_raw")
 
 
+SETTER_SCOPE = ("xknx.devices.", "xknx.remote_value.", "xknx.tools.group_communication", "xknx.mcp.tools")
+
+
+DECODE_SIDE = ("from_knx", "_from_knx", "validate_payload")
+
+
+def refusal_precedes_queueing(chk: Check, repo: Repo, mr) -> None:
+    """`rejected at the call ... and nothing is queued`, for the setters that send more than one telegram: on no path of a
+    setter does a call that can still refuse the caller's value (ConversionError may leave it, and it receives something
+    derived from the setter's parameters) come after a call that has queued a telegram.  Both facts are read off the
+    may-raise engine per call expression: a queueing call is one that `telegrams.put_nowait` can be reached from (its
+    QueueFull is the marker), a refusing call one that ConversionError can leave."""
+    from ..mayraise import _FuncAnalysis
+    n_funcs = n_q = n_pairs = 0
+    for f in repo.all_functions():
+        if not f.module.name.startswith(SETTER_SCOPE) or f.cls is None and not f.module.name.startswith(("xknx.tools", "xknx.mcp")):
+            continue
+        # a received telegram is not a value handed over for sending (process / callback paths)
+        params = {a.arg for a in f.node.args.posonlyargs + f.node.args.args + f.node.args.kwonlyargs if a.annotation is None or "Telegram" not in ast.unparse(a.annotation)} - {"self", "cls"}
+        if f.node.args.vararg:
+            params.add(f.node.args.vararg.arg)
+        if f.node.args.kwarg:
+            params.add(f.node.args.kwarg.arg)
+        if not params:
+            continue
+        # names derived from the parameters (flow-insensitive closure over the assignments and loop targets)
+        derived = set(params)
+        changed = True
+        while changed:
+            changed = False
+            for n in walk_local(f.node):
+                tg, src = None, None
+                if isinstance(n, ast.Assign):
+                    tg, src = n.targets, n.value
+                elif isinstance(n, (ast.AnnAssign, ast.AugAssign, ast.NamedExpr)) and n.value is not None:
+                    tg, src = [n.target], n.value
+                elif isinstance(n, (ast.For, ast.AsyncFor)):
+                    tg, src = [n.target], n.iter
+                elif isinstance(n, ast.comprehension):
+                    tg, src = [n.target], n.iter
+                if src is None or not any(isinstance(x, ast.Name) and x.id in derived for x in ast.walk(src)):
+                    continue
+                for t in tg:
+                    for x in ast.walk(t):
+                        if isinstance(x, ast.Name) and x.id not in derived:
+                            derived.add(x.id)
+                            changed = True
+        cfg = CFG(f.node)
+        an = None
+        qs: list[tuple[int, ast.Call]] = []
+        rs: list[tuple[int, ast.Call]] = []
+        for n in cfg.nodes:
+            if n.ast is None or n.kind not in ("stmt", "test", "for", "with"):
+                continue
+            roots = [n.ast.iter] if n.kind == "for" else ([i.context_expr for i in n.ast.items] if n.kind == "with" else [n.ast])
+            cs = []
+            stack = list(roots)
+            while stack:
+                x = stack.pop()
+                if isinstance(x, (ast.FunctionDef, ast.AsyncFunctionDef, ast.Lambda, ast.ClassDef)):
+                    continue
+                if isinstance(x, ast.Call):
+                    cs.append(x)
+                stack.extend(ast.iter_child_nodes(x))
+            if not cs:
+                continue
+            # a decoding call (from_knx of an answer / of a payload) refuses a received payload, not the caller's value:
+            # it is transparent - its arguments are looked at on their own
+            decoding = {id(c) for c in cs if isinstance(c.func, ast.Attribute) and c.func.attr in DECODE_SIDE}
+            inner = {id(y) for c in cs if id(c) not in decoding for a in list(c.args) + [k.value for k in c.keywords] for y in ast.walk(a) if isinstance(y, ast.Call)}
+            for c in cs:
+                if id(c) in inner or id(c) in decoding:
+                    continue  # an argument of an outer call: covered by the outer call's escapes
+                if an is None:
+                    an = _FuncAnalysis(mr, f, f.cls, {})
+                es = an.call(c)
+                excs = {e.exc for e in es}
+                if "QueueFull" in excs:
+                    qs.append((n.id, c))
+                caught = any(any(h.type is None or any(nm in ast.unparse(h.type) for nm in ("ConversionError", "XKNXException", "Exception")) for h in t.handlers) for t in n.tries if isinstance(t, ast.Try))
+                takes_value = any(isinstance(x, ast.Name) and x.id in derived for a in list(c.args) + [k.value for k in c.keywords] for x in ast.walk(a))
+                # a refusal raised while *decoding* (from_knx of an answer that was read) concerns a received payload
+                refusing = [e for e in es if mr.is_sub(e.exc, "ConversionError") and e.func.rsplit(".", 1)[-1] not in DECODE_SIDE]
+                if takes_value and not caught and refusing:
+                    rs.append((n.id, c))
+        if not qs:
+            continue
+        n_funcs += 1
+        n_q += len(qs)
+        chk.unit(f)
+        for qn, q in qs:
+            after = cfg.reachable([qn], include_start=False, edge_ok=lambda s_, t_, lab, qn=qn: not (s_ == qn and lab == "exc"))
+            for rn, r in rs:
+                if rn in after:
+                    n_pairs += 1
+                    chk.ob("refusal-precedes-queueing", f.site(r), False, f"{f.qualname}: `{canon(r)[:70]}` can still refuse the caller's value (ConversionError) after `{canon(q)[:70]}` has queued a telegram - the call fails and a part of it is sent", key=f"partial|{f.qualname}|{an.ktext(q)[:60]}|{an.ktext(r)[:60]}")
+    chk.ob("refusal-precedes-queueing", "xknx/devices", True, f"{n_funcs} setters with {n_q} queueing calls examined; {n_pairs} queueing call(s) followed by a call that can still refuse the value (each reported on its own)", key="partial|summary")
+    chk.floor("setters that queue telegrams", n_funcs, 40)
+
+
 def run(chk: Check, repo: Repo) -> None:
     inv = ctor_invariant(chk, repo)
     mr = engine(repo)
@@ -253,7 +354,9 @@ def run(chk: Check, repo: Repo) -> None:
         if m.cls is rv and (dc is None or ast.unparse(dc[0]) == "None") and not any(isinstance(w.stmt, (ast.Assign, ast.AnnAssign)) and w.func.cls is not None and repo.is_subclass(c, w.func.cls) for w in attr_writes(repo, "dpt_class", include_mutators=False)):
             continue  # abstract: to_knx raises NotImplementedError by design
         n += 1
-        check_entry(chk, mr, m, ("ConversionError", "NotImplementedError"), ctx=c, label=f"{c.name}.to_knx", rule="value-rejected-with-conversion-error", reviewed=builder_reviewed)
+        # the property quantifies over wrong types too: the value parameter carries a caller value of unchecked type
+        vp = [a.arg for a in m.node.args.args if a.arg not in ("self", "cls")][:1]
+        check_entry(chk, mr, m, ("ConversionError", "NotImplementedError"), ctx=c, label=f"{c.name}.to_knx", rule="value-rejected-with-conversion-error", reviewed=builder_reviewed, argkinds={v: frozenset([UNTYPED]) for v in vp})
     chk.floor("remote value encoders analysed", n, 15)
     pp = repo.func("xknx.tools.group_communication", "_parse_payload")
     # a raw list goes into DPTArray, which checks the range of integers only (non-integers pass - pinned by upstream
@@ -309,9 +412,10 @@ def run(chk: Check, repo: Repo) -> None:
     vparam = pp.node.args.args[0].arg
     direct = [n for n in ppc.nodes if n.kind == "stmt" and isinstance(n.ast, ast.Return) and isinstance(n.ast.value, ast.Name) and n.ast.value.id == vparam and any(v and a == f"isinstance({vparam}, DPTArray)" or (v and "DPTArray" in a and a.startswith(f"isinstance({vparam},")) for a, v in ppf[n.id])]
     chk.ob("raw-payload-elements-are-integers", pp.site(), not direct, "a DPTArray handed in by the caller " + ("goes through the same checks" if not direct else "is returned as it is - DPTArray(()) or DPTArray((12.5, 26)) get queued"), key="raw|ready-made")
-    check_entry(chk, mr, pp, ("ConversionError",), label="_parse_payload", rule="value-rejected-with-conversion-error", reviewed=builder_reviewed)
+    check_entry(chk, mr, pp, ("ConversionError",), label="_parse_payload", rule="value-rejected-with-conversion-error", reviewed=builder_reviewed, argkinds={vparam: frozenset([UNTYPED])})
     scaling_rejects_out_of_range(chk, repo)
     ordering(chk, repo)
+    refusal_precedes_queueing(chk, repo, mr)
     chk.rule("constructor must-facts + ownership census for the payload invariants; E1 may-raise analysis of the payload serialiser and of every payload builder on the send paths; construction-site census; dominance of the build over the queueing call")
     chk.assume("type errors in well-typed callers are mypy's domain (the octet test applies to integer elements)")
     finish(chk, mr)
